@@ -3,7 +3,7 @@ CONSTANTS
   NPaths = 3
   Contents = {"GInt", "GStr", "ReqB", "Mod", "Enum", "UseFoo"}
   Ops = {"update", "unset", "remove", "reindex"}
-  MaxSteps = 4
+  MaxSteps = 3
   EditDist = 3
   Batch = FALSE
   EmitSel = "reindex"
